@@ -18,7 +18,7 @@ PROP = {
     ],
     "manifest": {
         "design_ref": "DESIGN.md section 7, C20",
-        "text": "PARTIAL. Coq theorems over a term model of the macro_rules! arms of arr!, box_arr! and box_arr_helper! (matcher shape + transcriber, transcribed from src/arr.rs as data) with substitution of $x under repetition, nested expansion, and an evaluation semantics with an effect log: for ALL argument lists of opaque side-effecting expressions, arr![e0..ek] (any number of trailing commas, the empty list included) evaluates each expression exactly once in order and yields a GenericArray whose type-level length is the element count and whose contents are the values; the same at compile time in a const; both repeat forms yield N copies of x with x evaluated once (type-level N: any Unsigned; expression n: those in typenum's Const table, otherwise a compile error); box_arr! yields a Box holding the equal array with the same log, the unit array of box_arr_helper!(@unit $x) has the vec!'s length so __from_vec_helper's unwrap_unchecked is on Ok, and $x is evaluated once although it occurs twice in the transcriber; no panic, no UB in the model. Trusted and only sampled: macro_rules! matching/hygiene, Rust's evaluation order, typenum's Const<N> table, rustc's const evaluator. Tie to the code: the extracted model against invocations in the harness source and generated programs compiled with rustc against the current crate (every element count 0..=64, 100, 128, 255, 256; length lattice; Copy, non-Copy, clone-logging and zero-sized elements; const positions; programs that must not compile).",
+        "text": "PARTIAL. Coq theorems over a term model of the macro_rules! arms of arr!, box_arr! and box_arr_helper! (matcher shape + transcriber, transcribed from src/arr.rs as data) with substitution of $x under repetition, nested expansion, and an evaluation semantics with an effect log: for ALL argument lists of opaque side-effecting expressions, arr![e0..ek] (any number of trailing commas, the empty list included) evaluates each expression exactly once in order and yields a GenericArray whose type-level length is the element count and whose contents are the values; the same at compile time in a const; both repeat forms yield N copies of x with x evaluated once (type-level N: any Unsigned; expression n: those in typenum's Const table, otherwise a compile error); box_arr! yields a Box holding the equal array with the same log, the unit array of box_arr_helper!(@unit $x) has the vec!'s length so __from_vec_helper's unwrap_unchecked is on Ok, and $x is evaluated once although it occurs twice in the transcriber; no panic, no UB in the model; unsafe hygiene: no caller-written fragment occurs inside an unsafe block of any expansion (the term model carries the transcribers' unsafe blocks, regenerated from the source). Trusted and only sampled: macro_rules! matching/hygiene, Rust's evaluation order, typenum's Const<N> table, rustc's const evaluator. Tie to the code: the extracted model against invocations in the harness source and generated programs compiled with rustc against the current crate (every element count 0..=64, 100, 128, 255, 256; length lattice; Copy, non-Copy, clone-logging and zero-sized elements; const positions; programs that must not compile).",
         "technique": "machine-checked proof in Coq over a deep embedding of the macro transcribers (all argument lists, induction) + extracted-model vs rustc-compiled invocations differential correspondence",
         "note": "Strength partial: macro_rules! matching and hygiene, Rust's evaluation order and typenum's Const<N> table are trusted and sampled, not proved. Trusted: Coq 8.16.1 kernel; extraction (ExtrOcamlBasic) and the correspondence harness (rustc 1.95.0).",
     },
